@@ -187,7 +187,7 @@ func (m *TCPMuxDefault) createConn(ufrag string, isIPv6 bool, local net.IP, from
 	go func() {
 		defer m.wg.Done()
 		<-conn.CloseChannel()
-		m.removeConnByUfragAndLocalHost(ufrag, connKey)
+		m.removeConnByUfragAndLocalHost(ufrag, connKey, conn)
 	}()
 
 	return conn, nil
@@ -381,13 +381,17 @@ func (m *TCPMuxDefault) RemoveConnByUfrag(ufrag string) {
 	}
 }
 
-func (m *TCPMuxDefault) removeConnByUfragAndLocalHost(ufrag string, localIPAddr ipAddr) {
+// removeConnByUfragAndLocalHost unregisters and closes closedConn once its
+// close channel fired, but only while it is still the connection on record for
+// (ufrag, local address): a connection that RemoveConnByUfrag took out earlier
+// must not take down the one that has been created for the same ufrag since.
+func (m *TCPMuxDefault) removeConnByUfragAndLocalHost(ufrag string, localIPAddr ipAddr, closedConn *tcpPacketConn) {
 	removedConns := make([]*tcpPacketConn, 0, 4)
 
 	// Keep lock section small to avoid deadlock with conn lock
 	m.mu.Lock()
 	if conns, ok := m.connsIPv4[ufrag]; ok {
-		if conn, ok := conns[localIPAddr]; ok {
+		if conn, ok := conns[localIPAddr]; ok && conn == closedConn {
 			delete(conns, localIPAddr)
 			if len(conns) == 0 {
 				delete(m.connsIPv4, ufrag)
@@ -396,7 +400,7 @@ func (m *TCPMuxDefault) removeConnByUfragAndLocalHost(ufrag string, localIPAddr 
 		}
 	}
 	if conns, ok := m.connsIPv6[ufrag]; ok {
-		if conn, ok := conns[localIPAddr]; ok {
+		if conn, ok := conns[localIPAddr]; ok && conn == closedConn {
 			delete(conns, localIPAddr)
 			if len(conns) == 0 {
 				delete(m.connsIPv6, ufrag)
